@@ -178,3 +178,13 @@ Print Assumptions C02_decision_is_translation_of_source.
 Theorem C02_apply_is_translation_of_source : TieBisyncApply.bisync_apply_is_translation.
 Proof. exact TieBisyncApply.bisync_apply_is_translation_holds. Qed.
 Print Assumptions C02_apply_is_translation_of_source.
+
+(** [bisync_run] / [bisync_dry] - the run of the theorems above - are the translation of bidir.rs `run_bisync` as the
+    source has it now: `trust_base` = a record was loaded, the plan from `reconcile` on (a, b, base, trust_base), the
+    dry-run exit before anything is touched (printing exactly the plan), the base pruned to paths present on a side,
+    `apply(..)?` per plan entry in order, the record saved only after the last apply, the exit status from the conflict
+    count (Gen/BisyncRunGen.v, Proofs/TieBisyncRun.v). *)
+Require Copia.Proofs.TieBisyncRun.
+Theorem C02_run_is_translation_of_source : TieBisyncRun.bisync_run_is_translation.
+Proof. exact TieBisyncRun.bisync_run_is_translation_holds. Qed.
+Print Assumptions C02_run_is_translation_of_source.
